@@ -278,3 +278,21 @@ def h_find_shape(cc, gc, n_slots, cps, ga, partial):
         else:
             check(len(gi) == 1 and s['gpus'][0]['occupation'] == gpr,
                   'slot gpu share %s, requested %s', s['gpus'], gpr)
+
+
+# ------------------------------------------------------------------------------
+@obligation(params={'cc': (0, 15), 'gc': (0, 3), 'ncr': (1, 2), 'co': (0, 1),
+                    'ngr': (0, 1), 'go': (0, 1), 'lreq': (0, 200)},
+            partition={'quick': ('cc', 8), 'thorough': ('cc', 16)},
+            timeout={'quick': 300, 'thorough': 600},
+            funcs=['radical/pilot/resource_config.py:Node.find_slot',
+                   'radical/pilot/resource_config.py:Node.allocate_slot'],
+            bounds='as C01 h_client_find_slot: one client-side node of 2 cores x '
+                   '1 GPU in every occupancy state; request 1..2 cores at '
+                   'occupation {.5,1}, 0..1 GPUs at an independent occupation '
+                   '{.5,1}, lfs symbolic (node lfs 100)')
+def h_client_slot_shape(cc, gc, ncr, co, ngr, go, lreq):
+    """the slot a client-side node hands out has the requested cores / GPUs at
+    the requested shares"""
+    import harness.c01 as c01
+    c01.h_client_find_slot(cc, gc, ncr, co, ngr, go, 100, lreq, nc=2)
